@@ -16,6 +16,9 @@ CORPUS = [
     ("imports", 'import "pe"\nimport "tests"\nimport "hash"\nrule a { condition: tests.constants.one == 1 and pe.number_of_sections >= 0 or hash.md5(0, filesize) == "x" }'),
     ("meta_tags", 'global rule g : t1 t2 { meta: author = "me" n = 5 b = true condition: true }\nprivate rule p { condition: false }\nrule r : tag { meta: s = "str" strings: $a = "MK1;" condition: $a and g and not p }'),
     ("externals", 'rule e { condition: ext_i == 3 and ext_s contains "a" and ext_b and ext_f > 0.25 }'),
+    # enough distinct atoms for the tables of the automaton to grow several times, children on the highest input bytes
+    ("automaton", "\n".join('rule w%d { strings: $a = { %02X %02X %02X %02X } $b = { %02X %02X FF } condition: any of them }' % (i, 0x30 + i % 200, (i * 7) % 256, (i * 13) % 256, 0xFC + i % 4, i % 251, (i * 3) % 256)
+                             for i in range(400))),
 ]
 EXT = ["cdefine 0 i ext_i 3", "cdefine 0 s ext_s 6162", "cdefine 0 b ext_b 1", "cdefine 0 f ext_f 0.5"]
 
@@ -67,6 +70,7 @@ def save_corpus(wd, variant="asan", extra_opts=(), audits=None):
         for e in run.events:
             if e["e"] == "Note": cur = e["text"]
             elif e["e"] == "RelocAudit" and "skipped" not in e: audits.append((cur, variant, e))
+            elif e["e"] == "AcTables": audits.append((cur, variant, dict(e, actables=True)))
     return {name: open("%s/%s.yarc" % (wd, name), "rb").read() for name, _ in CORPUS}
 
 
@@ -329,7 +333,12 @@ def c08(res, tier, seed):
     failing_saves(res, tier, wd, imgs[2], r)
     audit_recs, audit_owners = [], []
     for (cname, variant, au) in corpus_audits:
-        audit_recs.append({"kind": "audit", "unregistered": au["unregistered"], "dangling": au["dangling"], "outside": au["outside"], "relocs": au["relocs"], "pointers": au["pointers"]})
+        if au.get("actables"):
+            audit_recs.append({"kind": "actables", "size": au["size"], "t": au["t"], "m": au["m"]})
+            audit_owners.append(("corpus entry " + cname, variant, au))
+            continue
+        audit_recs.append({"kind": "audit", "unregistered": au["unregistered"], "dangling": au["dangling"], "outside": au["outside"], "relocs": au["relocs"], "pointers": au["pointers"],
+                           "ac_t": au.get("ac_t", 0), "ac_m": au.get("ac_m", 0), "ac_bad": au.get("ac_bad", 0)})
         audit_owners.append(("corpus entry " + cname, variant, au))
     for stream in (False, True):
         recs, owners = [], []
@@ -347,7 +356,8 @@ def c08(res, tier, seed):
                 kind, a, m, src = smetas[ci + gi]
                 for ai, au in enumerate(g.get("audits", [])):
                     if "skipped" in au: continue
-                    audit_recs.append({"kind": "audit", "unregistered": au["unregistered"], "dangling": au["dangling"], "outside": au["outside"], "relocs": au["relocs"], "pointers": au["pointers"]})
+                    audit_recs.append({"kind": "audit", "unregistered": au["unregistered"], "dangling": au["dangling"], "outside": au["outside"], "relocs": au["relocs"], "pointers": au["pointers"],
+                           "ac_t": au.get("ac_t", 0), "ac_m": au.get("ac_m", 0), "ac_bad": au.get("ac_bad", 0)})
                     audit_owners.append((src, "compiled" if ai == 0 else "loaded", au))
                 for bi, b in enumerate(sgroups[ci + gi]["bufs"]):
                     if g["rets"][bi] != 0 or "t" not in g["scans"][bi]:
